@@ -263,7 +263,7 @@ PROPS = {
         "rule": "case = one 3-step script or one hostile cookie; non-trivial = script with >=1 message completed through all steps, or a hostile cookie that reached the decoder; distinct by message set / cookie bytes",
         "subs": [
             {"engine": "wire.flash", "mode": "plain", "shards": {Q: 16, T: 16}, "gomaxprocs": 1, "ulimit_kb": 1572864,
-             "env": {"MALLOC_ARENA_MAX": 1}, "min_nontrivial": {Q: 250, T: 3000}, "timeout": {Q: 600, T: 3000}},
+             "env": {"MALLOC_ARENA_MAX": 1}, "min_nontrivial": {Q: 250, T: 1500}, "timeout": {Q: 600, T: 3000}},
         ],
     },
 
